@@ -192,6 +192,7 @@ func clauseProps(ct *Contract, c *Clause) []string {
 
 func (g *Gen) function(fn *ssa.Function, ct *Contract) {
 	st := g.entry
+	oblStart := len(g.obls)
 	st.heaps["$alloc"] = "0"
 	var args []Val
 	g.allocBound = "0" // everything reachable from the arguments existed at entry
@@ -282,7 +283,9 @@ func (g *Gen) function(fn *ssa.Function, ct *Contract) {
 		applied := 0
 		defer func(h *Clause) {
 			if applied == 0 {
-				g.fail("hint [%s] could not be evaluated at any return site (unknown local?)", h.Label)
+				// a hint is a proof step, not part of the property: when the local it names is gone (moved into a helper,
+				// inlined away) the postconditions are attempted without it rather than refusing the function
+				g.note("hint [%s] not used: a name it mentions exists at no return site", h.Label)
 			}
 		}(h)
 		for k, r := range g.topFrame.rets {
@@ -315,6 +318,38 @@ func (g *Gen) function(fn *ssa.Function, ct *Contract) {
 		g.frameObligations(fn, ct, env, exit, entrySnapshot, exitReach, args)
 	}
 	g.replay = g.buildReplay(fn, ct, args)
+	g.closeClauseProps(oblStart)
+}
+
+// closeClauseProps: hints and postconditions are proved in order and each is then assumed for the later ones, so a
+// clause that serves property P rests on every earlier hint and postcondition of the same contract. Those earlier
+// clauses are therefore obligations of P as well, whatever their own tags say: a change that falsifies one of them is
+// reported under every property whose clauses were proved with its help.
+func (g *Gen) closeClauseProps(from int) {
+	need := map[string]bool{}
+	for i := len(g.obls) - 1; i >= from; i-- {
+		o := g.obls[i]
+		if o.ExpectSat || (o.Kind != "hint" && o.Kind != "ensures") {
+			continue
+		}
+		have := map[string]bool{}
+		for _, p := range o.Props {
+			have[p] = true
+		}
+		var add []string
+		for p := range need {
+			if !have[p] {
+				add = append(add, p)
+			}
+		}
+		if len(add) > 0 {
+			sort.Strings(add)
+			o.Props = append(append([]string{}, o.Props...), add...)
+		}
+		for p := range have {
+			need[p] = true
+		}
+	}
 }
 
 // hintAt translates a hint clause in the state of one return site, with the
